@@ -16,6 +16,13 @@ pub struct Packed3 {
     pub b: u64,
     pub c: u64,
 }
+/// 9 bytes of fields in a 16-byte struct: 7 bytes of tail padding
+#[derive(Savefile, Debug, Clone, PartialEq)]
+#[repr(C)]
+pub struct PadRec {
+    pub a: u64,
+    pub b: u8,
+}
 #[derive(Savefile, Debug, Clone, PartialEq)]
 pub struct Rec {
     pub name: String,
@@ -47,6 +54,7 @@ pub trait Svc {
     fn join(&self, s: String, tag: u32) -> (String, u32);
     fn concat(&self, a: String, b: String) -> String;
     fn sum_ref(&self, p: &Packed3) -> u64;
+    fn pad(&self, p: &PadRec) -> u64;
     fn len_ref(&self, r: &Rec) -> usize;
     fn count_str(&self, s: &str) -> usize;
     fn sum_slice(&self, s: &[u32]) -> u64;
@@ -150,6 +158,11 @@ impl Svc for SvcImpl {
         fault_point("sum_ref");
         log(format!("impl.sum_ref {:?}", p));
         p.a.wrapping_add(p.b).wrapping_add(p.c)
+    }
+    fn pad(&self, p: &PadRec) -> u64 {
+        fault_point("pad");
+        log(format!("impl.pad a={} b={}", p.a, p.b));
+        p.a.wrapping_add(p.b as u64)
     }
     fn len_ref(&self, r: &Rec) -> usize {
         fault_point("len_ref");
@@ -283,11 +296,14 @@ impl Svc for SvcImpl {
     fn fut(&self, ev: u32, stages: u32) -> Pin<Box<dyn Future<Output = u32>>> {
         fault_point("fut");
         log(format!("impl.fut ev={} stages={}", ev, stages));
+        let lazy = stages >= 100;
         Box::pin(LeafFut {
             guard: Guard::new("future"),
             ev,
             stage: 0,
-            stages: stages.clamp(1, 3),
+            stages: (stages % 100).clamp(1, 3),
+            lazy,
+            registered: false,
         })
     }
     fn many(&self, a0: u8, a1: u8, a2: u8, a3: u8, a4: u8, a5: u8, a6: u8, a7: u8, a8: u8, a9: u8, a10: u8, a11: u8, a12: u8, a13: u8, a14: u8, a15: u8, a16: u8, a17: u8, a18: u8, a19: u8, a20: u8, a21: u8, a22: u8, a23: u8, a24: u8, a25: u8, a26: u8, a27: u8, a28: u8, a29: u8, a30: u8, a31: u8, a32: u8, a33: u8, a34: u8, a35: u8, a36: u8, a37: u8, a38: u8, a39: u8, a40: u8, a41: u8, a42: u8, a43: u8, a44: u8, a45: u8, a46: u8, a47: u8, a48: u8, a49: u8, a50: u8, a51: u8, a52: u8, a53: u8, a54: u8, a55: u8, a56: u8, a57: u8, a58: u8, a59: u8, a60: u8, a61: u8, a62: u8, a63: u8) -> u32 {
@@ -306,6 +322,9 @@ pub struct LeafFut {
     pub ev: u32,
     pub stage: u32,
     pub stages: u32,
+    /// lazy: registers the waker of its first poll for ALL its events and never again
+    pub lazy: bool,
+    pub registered: bool,
 }
 impl Future for LeafFut {
     type Output = u32;
@@ -322,6 +341,15 @@ impl Future for LeafFut {
                 continue;
             }
             log(format!("fut{}.pending stage={}", self.ev, self.stage));
+            if self.lazy {
+                if !self.registered {
+                    self.registered = true;
+                    for st in self.stage..self.stages {
+                        crate::world::register_waker(self.ev + st, self.guard.id(), cx.waker().clone());
+                    }
+                }
+                return Poll::Pending;
+            }
             crate::world::register_waker(e, self.guard.id(), cx.waker().clone());
             fault_point("fut.registered");
             return Poll::Pending;
@@ -352,6 +380,16 @@ pub mod alt {
         pub b: u64,
         pub c: u64,
     }
+    /// the implementation's newer PadRec: a field added in version 2 that fits into what is tail padding for the
+    /// caller (same size, same alignment, same offsets of the common fields)
+    #[derive(Savefile, Debug, Clone, PartialEq)]
+    #[repr(C)]
+    pub struct PadRecAlt {
+        pub a: u64,
+        pub b: u8,
+        #[savefile_versions = "2.."]
+        pub c: u32,
+    }
     #[savefile_abi_exportable(version = 2)]
     pub trait Svc {
         fn extra_first(&self) -> u32;
@@ -373,6 +411,7 @@ pub mod alt {
         fn count_str(&self, s: &str) -> usize;
         fn len_ref(&self, r: &Rec) -> usize;
         fn sum_ref(&self, p: &Packed3Alt) -> u64;
+        fn pad(&self, p: &PadRecAlt) -> u64;
         fn concat(&self, a: String, b: String) -> String;
         fn join(&self, s: String, tag: u32) -> (String, u32);
         fn echo_vec(&self, v: Vec<u8>) -> Vec<u8>;
@@ -438,6 +477,10 @@ pub mod alt {
         }
         fn sum_ref(&self, p: &Packed3Alt) -> u64 {
             <SvcImpl as super::Svc>::sum_ref(self, &Packed3 { a: p.a, b: p.b, c: p.c })
+        }
+        fn pad(&self, p: &PadRecAlt) -> u64 {
+            // a caller that does not know `c` must make it arrive as 0
+            <SvcImpl as super::Svc>::pad(self, &PadRec { a: p.a, b: p.b }).wrapping_add((p.c as u64).wrapping_mul(1_000_003))
         }
         fn concat(&self, a: String, b: String) -> String {
             <SvcImpl as super::Svc>::concat(self, a, b)
